@@ -420,6 +420,8 @@ class Interp:
         m = re.match(r'^(-?[\d_]+)_?(u8|u16|u32|u64|u128|usize|i8|i16|i32|i64|i128|isize)$', t)
         if m:
             return S(z3.IntVal(int(m.group(1).replace('_', ''))), m.group(2))
+        if t.startswith('b"'):
+            return Ref(Loc(Cell(Opaque('bytes', eval(t)), 'bytes-const')))
         if t.startswith('"'):
             from models_str import const_str
             return const_str(self, eval('b' + t) if _safe_lit(t) else t[1:-1].encode())
@@ -440,6 +442,18 @@ class Interp:
         m = re.match(r'^\{(alloc\d+)(?:\+0x[0-9a-f]+)?: (.*)\}$', t)
         if m:
             return self.eval_alloc(m.group(1), m.group(2))
+        if t.startswith('<') and '::promoted[' in t:
+            pcc = parse_callee(t.rsplit('::', 1)[0])
+            prom = t.rsplit('::', 1)[1]
+            fnc = self.index.resolve(pcc)
+            if fnc is not None:
+                cf = self.dump.consts.get(fnc.name + '::' + prom)
+                if cf is not None:
+                    key = ('const', cf.name)
+                    if key not in self.ctx.const_cache:
+                        self.ctx.const_cache[key] = run_to_end(self.call_fn(cf, []))
+                    return self.ctx.const_cache[key]
+            raise Unsupported('promoted constant not resolved: ' + t)
         # unit enum variants
         flat = strip_generics(t)
         segs = flat.split('::')
